@@ -92,4 +92,8 @@ def wfOff (g : Graph) : Bool :=
     | some o => decide (0 ≤ o)
     | none => true
 
+/-- the future offset of every instance is the one its prerequisite atoms give (`atomFutOff`) -/
+def wfFut (g : Graph) : Bool :=
+  g.tasks.all fun t => t.insts.all fun pd => pd.2.futOff == atomFutOff pd.1 (pd.2.pre ++ pd.2.sui)
+
 end CylcModel.Sched3Fut
